@@ -547,6 +547,24 @@ def r5(ctx):
     ok = any(norm(c) == "self.operator_resolver.set_feature_flags(self.feature_flags)" for c in ast.walk(post.node) if isinstance(c, ast.Call))
     ctx.check(ok, "C14.R5", "the parser pushes its feature flags into the operator resolver", post.where, ctx.construct(post, text="propagate flags"),
               "DefaultFormulaParser.__post_init__ must call operator_resolver.set_feature_flags(self.feature_flags)")
+    # the configuration survives copying / pickling: __getstate__ of the resolver drops only its caches
+    gs = P.method("formulaic.parser.types.operator_resolver.OperatorResolver", "__getstate__")
+    cached = {n for c in [P.cls("formulaic.parser.types.operator_resolver.OperatorResolver")] + P.subclasses("formulaic.parser.types.operator_resolver.OperatorResolver")
+              for n, m in c.methods.items() if any("cached_property" in d for d in m.decorators())}
+    r_ = returns_of(gs.node)
+    v_ = r_[0].value if r_ else None
+    ok = isinstance(v_, ast.DictComp) and norm(v_.generators[0].iter) == "self.__dict__.items()" and len(v_.generators[0].ifs) == 1
+    dropped = set()
+    if ok:
+        t_ = v_.generators[0].ifs[0]
+        kname = norm(v_.generators[0].target.elts[0]) if isinstance(v_.generators[0].target, ast.Tuple) else "?"
+        if isinstance(t_, ast.Compare) and norm(t_.left) == kname and isinstance(t_.ops[0], (ast.NotEq, ast.NotIn)):
+            c0 = t_.comparators[0]
+            dropped = {c0.value} if isinstance(c0, ast.Constant) else {e.value for e in getattr(c0, "elts", []) if isinstance(e, ast.Constant)}
+    ctx.check(ok and dropped == cached, "C14.R5", "copying / pickling an operator resolver keeps its feature flags (only cached tables are dropped)", gs.where,
+              ctx.construct(gs, text="getstate"),
+              f"__getstate__ returns `{norm(v_) if v_ is not None else None}` (drops {sorted(dropped) if ok else 'everything'}; caches are {sorted(cached)}): a copied or unpickled "
+              f"parser falls back to the default flags and accepts operators it was configured to reject")
     sf = P.method(c01.RESOLVER, "set_feature_flags")
     ok = any(isinstance(n, ast.Delete) and "operator_table" in norm(n) for n in ast.walk(sf.node))
     ctx.check(ok, "C14.R5", "changing the flags invalidates the cached operator table", sf.where, ctx.construct(sf, text="invalidate cache"),
